@@ -1,6 +1,7 @@
 package simcore
 
 import (
+	"context"
 	"crypto/sha256"
 	"encoding/binary"
 	"encoding/hex"
@@ -154,6 +155,9 @@ func (r *Run) SetParam(name string, v int64) {
 	}
 	r.Params[name] = v
 }
+
+// Ctx returns a background context.
+func (r *Run) Ctx() context.Context { return context.Background() }
 
 // Seq returns the next global event sequence number.
 func (r *Run) Seq() int64 {
